@@ -61,6 +61,7 @@ class C08(Prop):
 
 class C09(C08):
     id = "C09"
+    classes = {"F2": 1}
     coq_targets = ["Properties/C09.vo", "Corr/C08.vo"]
     props_file = "Properties/C09.v"
 
